@@ -102,3 +102,25 @@ def upgradeNoTx (db : DB) (vs : List Version) (fails : Nat → Bool) (setFails :
   ({ version := r.version, data := db.data ++ applied r.trace }, r.err)
 
 end Migration
+
+namespace Migration
+
+/-- `migration.Upgrade(mgrs...)` inside ONE `walletdb.Update` (wallet.OpenWithRetry upgrades the transaction
+manager and the address manager this way): components are upgraded in order; the first error aborts and the
+enclosing transaction discards every write of every component. -/
+def upgradeManyLoop (fails : Nat → Bool) : List (DB × List Version) → List DB × Option Err
+  | [] => ([], none)
+  | (db, vs) :: rest =>
+    let r := upgrade (some db.version) vs fails false
+    match r.err with
+    | some e => ([], some e)
+    | none =>
+      let (dbs, e) := upgradeManyLoop fails rest
+      ({ version := r.version, data := db.data ++ applied r.trace } :: dbs, e)
+
+def upgradeManyInTx (comps : List (DB × List Version)) (fails : Nat → Bool) : List DB × Option Err :=
+  match upgradeManyLoop fails comps with
+  | (_, some e) => (comps.map (·.1), some e)
+  | (dbs, none) => (dbs, none)
+
+end Migration
